@@ -138,7 +138,14 @@ func (x *vc) callStatic(fr *frame, st *state, callee *ssa.Function, binds []Val,
 		x.pendingBinds = binds
 		return x.applyContract(fr, st, fc, callee, callee.Signature, args, names, pos, shortFn(callee), resT)
 	}
+	extGuard := st.guard
+	if !isRepoFn(callee) {
+		x.externalCallClauses(fr, st, callee, args, pos)
+	}
 	if v, ok := x.stdlibModel(fr, st, callee, args, resT, pos); ok {
+		if !isRepoFn(callee) {
+			x.recordExternalResult(fr, callee, v, extGuard)
+		}
 		return v
 	}
 	if !isRepoFn(callee) {
@@ -148,6 +155,7 @@ func (x *vc) callStatic(fr *frame, st *state, callee *ssa.Function, binds []Val,
 			x.havocCall(st, resT, callee.String(), true)
 		}
 		r := x.freshResult(st, resT, "ext_"+callee.Name())
+		x.recordExternalResult(fr, callee, r, extGuard)
 		// library functions do not return interface values holding typed nil pointers (e.g. a non-nil error has a non-nil payload)
 		for _, c := range append([]Val{r}, r.Tuple...) {
 			if c.T != "" && c.Typ != nil && x.srt.sortOf(c.Typ) == sIface {
@@ -795,7 +803,17 @@ func (x *vc) stdlibModel(fr *frame, st *state, callee *ssa.Function, args []Val,
 		sgn := args[1].T
 		return Val{T: or(and(app(">=", sgn, "0"), eq(args[0].T, "(_ +oo 11 53)")), and(app("<=", sgn, "0"), eq(args[0].T, "(_ -oo 11 53)"))), Typ: resT}, true
 	case "math.Sqrt":
-		return Val{T: x.define("sqrt", sF64, app("fp.sqrt RNE", args[0].T)), Typ: resT}, true
+		// the library function, by its documented special cases and range (bit-blasting fp.sqrt is out of the solvers' reach)
+		x.needDecl("(declare-fun math_sqrt (F64) F64)")
+		x.trusted["math.Sqrt: finite and non-negative on finite non-negative arguments, NaN on negative ones and NaN, +Inf on +Inf (documented behaviour, not bit-level)"] = true
+		a := args[0].T
+		r := x.define("sqrt", sF64, app("math_sqrt", a))
+		fin := func(t string) string { return and(not(app("fp.isNaN", t)), not(app("fp.isInfinite", t))) }
+		x.assume("true", and(
+			implies(and(fin(a), app("fp.geq", a, "(_ +zero 11 53)")), and(fin(r), app("fp.geq", r, "(_ +zero 11 53)"))),
+			implies(or(app("fp.isNaN", a), app("fp.lt", a, "(_ +zero 11 53)")), app("fp.isNaN", r)),
+			implies(and(app("fp.isInfinite", a), app("fp.isPositive", a)), and(app("fp.isInfinite", r), app("fp.isPositive", r)))))
+		return Val{T: r, Typ: resT}, true
 	case "math.Inf":
 		return Val{T: ite(app(">=", args[0].T, "0"), "(_ +oo 11 53)", "(_ -oo 11 53)"), Typ: resT}, true
 	case "math.NaN":
